@@ -9,5 +9,5 @@ PROP = "C06"
 
 
 def run(tier, seed):
-    return speccheck.run(PROP, tier, seed, ["join", "join", "scen_join_hidden", "scen_selfjoin_agg", "scen_join_suffix", "scen_join_all", "join", "general"], 300, 10000, also=("C01", "C09"),
+    return speccheck.run(PROP, tier, seed, ["join", "scen_cross_empty", "join", "scen_join_hidden", "scen_selfjoin_agg", "scen_join_suffix", "scen_join_all", "join", "general"], 300, 10000, also=("C01", "C09"),
                          assumptions=["join predicates are generated over int / string / bool keys with duplicate and null keys; inequality predicates and expressions are included"])
